@@ -116,6 +116,7 @@ class Layout:
                         core.assume(t >= 1)
                         numb[(l, d)] = t
             self.numb[c] = numb
+        del self.fs.opened[:]
         return self
 
     def meta(self):
@@ -249,7 +250,7 @@ def compare_mesh(tag, layout, out, pieces, lib, ndim, names=None):
     total = 0
     for p in pieces["level"]:
         total = total + p.shape[0]
-    if "level" not in mesh.keys():
+    if len(mesh.keys()) == 0:
         # nothing selected at all: legal only when there are no rows
         prove("%s.empty_only_if_no_rows" % tag, SV.lift(total) == 0)
         return total
